@@ -350,7 +350,7 @@ func firstLine(s string) string {
 
 func TestCheck(t *testing.T) {
 	r := vp.New("C17", "exploration",
-		"provider records: chain-level lists = every sequence of length <=N over {main, X, Y} x per-entry metadata {nil, empty, equal to looked-up, different}, every entry with addresses of its own (different from the provider record's and between chain-level and contextual lists); contextual sets for context IDs \"c\" and \"\" with the same alphabets (length <=M) and override on/off; metadata-list lengths {matching, truncated to every shorter length, one longer, nil} for lists of up to 3 providers; every record served directly, after a JSON round trip, and through the library HTTP source (WithClient + WithSourceURL; its listing holds the record between two other providers, one with extended providers of every kind and one with none), entering the cache by the constructor's preload refresh and by a lookup miss; lookups: context ID in {\"c\",\"d\",empty} x metadata {nil,\"m\"}. Non-trivial: records with at least one extended provider. Distinct = distinct (record, transport, lookup).",
+		"provider records: chain-level lists = every sequence of length <=N over {main, X, Y} x per-entry metadata {nil, empty, equal to looked-up, different}, every entry with addresses of its own (different from the provider record's and between chain-level and contextual lists); contextual sets for context IDs \"c\" and \"\" with the same alphabets (length <=M) and override on/off; metadata-list lengths {matching, truncated to every shorter length, one longer, nil} for lists of up to 3 providers; every record served directly, after a JSON round trip, and through the library HTTP source (WithClient + WithSourceURL; its listing holds the record between two other providers, one with extended providers of every kind and one with none), entering the cache by the constructor's preload refresh, by a GetResults that misses and by a plain Get that misses before any expansion is asked for; lookups: context ID in {\"c\",\"d\",empty} x metadata {nil,\"m\"}. Non-trivial: records with at least one extended provider. Distinct = distinct (record, transport, lookup).",
 		"records whose metadata list length differs from the provider list: an error is accepted; where results are produced they are held to the expansion rules with a provider that has no entry in the metadata list counting as 'no metadata of its own (absent)'; surplus metadata entries are ignored",
 		"records with two contextual sets for the same context ID are not generated",
 	)
@@ -384,7 +384,9 @@ func TestCheck(t *testing.T) {
 		}
 		// entry: how the record gets into the cache: with the preload refresh of
 		// the constructor, or by the first lookup missing (no preload)
-		for _, entry := range []string{"preload", "miss"} {
+		// ("get-miss": the first lookup of the provider is a plain Get, which
+		// misses and fetches the record; the expansions come afterwards)
+		for _, entry := range []string{"preload", "miss", "get-miss"} {
 			// via: how the source hands the record over: as the value built here,
 			// as that value after a JSON round trip, or through the library's
 			// own HTTP source (WithClient + WithSourceURL) whose listing holds
@@ -429,6 +431,12 @@ func TestCheck(t *testing.T) {
 				}
 				if err != nil {
 					panic(err)
+				}
+				if entry == "get-miss" {
+					if pn, m := vp.Guard(func() { _, _ = pc.Get(context.Background(), mainID) }); pn {
+						r.Violation("GetResults:panic:in-the-lookup-that-cached-the-record", "rec|"+rkey, firstLine(m), nil)
+						continue
+					}
 				}
 				for li, lk := range lookups {
 					key := fmt.Sprintf("rec|%s|json=%v|lookup=%d", rkey, via, li)
